@@ -1,12 +1,54 @@
-(** Property C09 (under construction: theorems are added below as they are proved) *)
+(** Property C09 — stacks are linearizable LIFO, with or without elimination.
+    Only statements here; proofs live in LV.Proofs.TreiberProofs / LV.Proofs.ElimProofs.
+
+    [hist tr] is the invoke/response history read off a trace: "inv_push v" / "ret_push b" / "inv_pop" /
+    "ret_pop b v" events of thread t become HInv t (Push v) / HRes t (RBool b) / HInv t Pop /
+    HRes t (RVal (Some v | None)).  [linearizable Stack h] is Herlihy-Wing linearizability w.r.t. the
+    sequential LIFO specification LV.Spec.Specs.Stack (LV.Base.Lin).
+
+    HYPOTHESIS BUILT INTO THE MODELS (smr_safe, DESIGN 4): a stack node is named by (allocating thread, index of
+    the push) and is never allocated twice; i.e. no node is recycled while a hazard pointer validated by
+    Guard::protect can still reach it.  This is what cds::gc::HP provides (property C01) and it is what rules out
+    ABA at pop's compare-and-swap; it is NOT re-proved here. *)
 From Coq Require Import ZArith List String.
-From LV Require Import Base.Conc Base.Events Model.Treiber.
+From LV Require Import Base.Conc Base.Events Base.Lin Spec.Specs Model.Treiber Proofs.TreiberProofs.
 Import ListNotations.
 Local Open Scope Z_scope.
 Local Open Scope string_scope.
 
-Example C09_treiber_run :
+(** cds::container::TreiberStack<cds::gc::HP,int> without elimination: for every number of threads, every
+    client program of push / pop operations, every loop fuel and EVERY schedule (every sequence of thread
+    choices), the history of every reachable configuration is the erasure of a trace with valid
+    linearization points (successful m_Top CAS; validated null load for an empty pop) ... *)
+Theorem C09_treiber_lp_valid :
+  forall (fuel : nat) (ths : list (list Treiber.op)) c,
+    Conc.reach (Treiber.init_cfg fuel ths) c ->
+    exists atr, lp_valid Stack atr /\ erase atr = hist (Conc.trace c).
+Proof. exact treiber_lp_valid. Qed.
+Print Assumptions C09_treiber_lp_valid.
+
+(** ... hence linearizable to a sequential LIFO stack. *)
+Theorem C09_treiber_linearizable :
+  forall (fuel : nat) (ths : list (list Treiber.op)) c,
+    Conc.reach (Treiber.init_cfg fuel ths) c ->
+    linearizable Stack (hist (Conc.trace c)).
+Proof. exact treiber_linearizable. Qed.
+Print Assumptions C09_treiber_linearizable.
+
+(** the m_pNext chain from m_Top is always finite, null-terminated and duplicate free *)
+Theorem C09_treiber_chain_wellformed :
+  forall (fuel : nat) (ths : list (list Treiber.op)) c,
+    Conc.reach (Treiber.init_cfg fuel ths) c ->
+    exists l, chain (next (Conc.shared c)) (top (Conc.shared c)) l /\ NoDup l.
+Proof. exact treiber_chain_wellformed. Qed.
+Print Assumptions C09_treiber_chain_wellformed.
+
+(** non-vacuity: a concrete 2-thread run with a contended CAS in which three pops return (two values, one
+    empty) and whose history has 10 events *)
+Example C09_treiber_nonvacuous :
   let r := Treiber.run_case [0; 50] [[[1;10]; [2]]; [[1;20]; [2]; [2]]] [0;1;0;1;1;0;0;1]%nat 1000 in
   snd r = true /\
-  List.length (filter (is_cli "ret_pop") (map snd (fst r))) = 3%nat.
-Proof. vm_compute. split; reflexivity. Qed.
+  List.length (filter (is_cli "ret_pop") (map snd (fst r))) = 3%nat /\
+  List.length (hist (fst r)) = 10%nat /\
+  existsb (fun e => match e with EvAcc KCas _ false => true | _ => false end) (map snd (fst r)) = true.
+Proof. vm_compute. repeat split; reflexivity. Qed.
